@@ -567,3 +567,53 @@ def observe_builder(sc):
         except Exception as e:  # noqa
             out.append(["err", type(e).__name__])
     return out
+
+
+# ---------------------------------------------------------------- graph family (cyclic structures)
+
+def build_graph(nodes):
+    objs = []
+    for nd in nodes:
+        if nd[0] == "d":
+            objs.append({})
+        elif nd[0] == "l":
+            objs.append([])
+        else:
+            objs.append(dec(nd[1]))
+    for nd, o in zip(nodes, objs):
+        if nd[0] == "d":
+            for k, v in nd[1]:
+                o[k] = objs[v]
+        elif nd[0] == "l":
+            for v in nd[1]:
+                o.append(objs[v])
+    return objs
+
+
+def observe_graph(sc):
+    objs = build_graph(sc["nodes"])
+    root = objs[sc["root"]]
+    log = []
+    b = Builder(log)
+    expr = b.steps(sc["path"])
+    count = [0]
+
+    def trace(t):
+        count[0] += 1
+
+    b.tracer = trace
+    it = find_matches(expr, root, trace=trace)
+    out = []
+    for _ in range(sc.get("nexts", 1)):
+        count[0] = 0
+        try:
+            m = next(it)
+            sig = ["R", m.path_as_str]
+        except StopIteration:
+            sig = ["S"]
+        except RecursionError:
+            sig = ["X", ["RecursionError"]]
+        except Exception as e:  # noqa
+            sig = ["X", exc_chain(e)]
+        out.append({"n": count[0], "s": sig})
+    return out
